@@ -685,6 +685,84 @@ def r8_piecewise_encoding(rep, src):
         raise AnalysisError('C02.R8: fewer than two piecewise encoders found (%d)' % n)
 
 
+def r7b_line_codec_handover(rep, src):
+    """the same clause by interpretation: the constructor of the signed-document classes interpreted (sa.heap) on a list of TEXT lines and
+    on a list of BYTES lines under the ways of passing the arguments, with the line encoder, the armor splitter and the wrapped constructor
+    as observers: text lines are encoded with one codec and the wrapped constructor is told to decode with that codec (unless the
+    caller fixed the encoding by position, which is left as it is); bytes lines leave the caller's encoding alone."""
+    from .. import heap as H
+    mod = src.mod('deb822')
+    f = mod.funcs.get('_gpg_multivalued.__init__')
+    base = mod.funcs.get('Deb822.__init__')
+    if f is None or base is None:
+        raise AnalysisError('deb822: _gpg_multivalued.__init__ / Deb822.__init__ not found')
+    rep.saw_func(f)
+    names = [a.arg for a in base.node.args.args][1:]
+    base_calls = [c for c in ast.walk(f.node) if isinstance(c, ast.Call) and isinstance(c.func, ast.Attribute) and c.func.attr == '__init__']
+    if len(base_calls) != 1:
+        raise AnalysisError('%s: %d calls of a wrapped constructor' % (f.site, len(base_calls)))
+    bname = norm(base_calls[0].func)
+    n = 0
+    for kind, lines in (('text lines', ['A: b\n']), ('bytes lines', [b'A: b\n']), ('text lines without line ends, the first one empty', ['', 'A: b']),
+                        ('bytes lines without line ends, the first one empty', [b'', b'A: b'])):
+        for label, args, kwargs in (('no encoding given', [lines], {}), ('encoding by keyword', [lines], {'encoding': 'latin-1'}),
+                                    ('lines and encoding by keyword', [], {'sequence': lines, 'encoding': 'latin-1'}),
+                                    ('encoding by keyword, filter by position', [lines, ('F',)], {'encoding': 'latin-1'})):
+            got = {'codecs': []}
+
+            def base_hook(it, a, k, got=got):
+                got['base'] = (list(a), dict(k))
+
+            def split_hook(it, a, k, got=got):
+                for x_ in a[1:2]:
+                    got['handed'] = len(it.seq(x_))
+                return (it.h.new_list([]), it.h.new_list([b'A: b']), it.h.new_list([]))
+
+            def bytes_hook(it, a, k, got=got):
+                if isinstance(a[1], str):
+                    got['codecs'].append(a[2] if len(a) > 2 else k.get('encoding'))
+                return b'A: b'
+            heap = H.Heap(mod, hooks={bname: base_hook, '.split_gpg_and_payload': split_hook, '._bytes': bytes_hook})
+            it = H.Interp(heap)
+            me = heap.alloc('_gpg_multivalued', {})
+            conv = lambda v: heap.new_list(list(v)) if isinstance(v, list) else v      # noqa: E731
+            what = 'codec of the lines = codec the wrapped constructor decodes with: %s, %s' % (kind, label)
+            try:
+                it.call(H.Closure(f.node, {}, me, f.cls), [conv(a) for a in args], {k: conv(v) for k, v in kwargs.items()})
+            except H.Raised as x:
+                rep.fail('C02.R7', f.site, what, 'raises %s (line %d)' % (x.exc, x.lineno), where=f.where)
+                continue
+            if 'base' not in got:
+                rep.fail('C02.R7', f.site, what, 'the wrapped constructor is not called', where=f.where)
+                continue
+            n += 1
+            if got.get('handed') != len(lines):
+                rep.fail('C02.R7', f.site, what, 'the armor splitter is handed %s of the %d input lines %r: the rest of the document is never read (an empty first line is a '
+                         'blank line of the document, not the end of the input)' % (got.get('handed', 'none'), len(lines), lines), where=f.where)
+                continue
+            a, k = got['base']
+            a = a[1:]
+            eff = {p: (a[i] if i < len(a) else k.get(p)) for i, p in enumerate(names[:5])}
+            given = kwargs.get('encoding')
+            if kind.startswith('text lines'):
+                codecs = set(got['codecs'])
+                if len(codecs) != 1 or not isinstance(next(iter(codecs)), str):
+                    rep.fail('C02.R7', f.site, what, 'the text lines are turned into bytes with %s' % (sorted(map(repr, codecs)) or 'no codec at all'), where=f.where)
+                elif eff['encoding'] != next(iter(codecs)):
+                    rep.fail('C02.R7', f.site, what, 'the text lines are turned into bytes with %r but the wrapped constructor is told to decode them with %r: a non-ASCII value of a '
+                             'text file is read differently from the same text given as str' % (next(iter(codecs)), eff['encoding'] if eff['encoding'] is not None else 'its default'),
+                             where=f.where)
+                else:
+                    rep.ok('C02.R7', f.site, what, 'both %r' % eff['encoding'])
+            else:
+                if eff['encoding'] != given:
+                    rep.fail('C02.R7', f.site, what, 'bytes lines are decoded with %r although the caller said %r' % (eff['encoding'], given), where=f.where)
+                else:
+                    rep.ok('C02.R7', f.site, what, 'the caller\'s %r' % (given,))
+    if n < 12:
+        raise AnalysisError('%s: fewer than twelve calling conventions interpreted' % f.site)
+
+
 def r9_paragraphs_share_no_container(rep, src):
     """the paragraphs that one iter_paragraphs() call produces are independent objects: what one of them spells, holds or caches does
     not reach the next.  Ownership rule on every iter_paragraphs of the module: a builtin container (dict / list / set display or
@@ -874,7 +952,13 @@ def check(src, rep, tier):
     rep.guard('C02.R5', r5_key_acceptance, src, M)
     rep.guard('C02.R6', r6_filter_before_split, src, M)
     rep.need('C02.R7', 1)
-    rep.guard('C02.R7', r7_encoding_reaches_decoder, src)
+    n_v, n_e = len(rep.violations), len(rep.errors)
+    rep.guard('C02.R7', r7b_line_codec_handover, src)
+    handover_holds = len(rep.violations) == n_v and len(rep.errors) == n_e
+    n_r7 = sum(1 for i_ in rep.instances if i_.get('rule') == 'C02.R7')
+    common.SoftAll(rep, lambda: handover_holds, 'the interpreted constructor (C02.R7), which holds under every calling convention').guard('C02.R7', r7_encoding_reaches_decoder, src)
+    if rep.min_instances.get('C02.R7') == 0:
+        rep.min_instances['C02.R7'] = n_r7
     rep.need('C02.R8', 2)
     rep.guard('C02.R8', r8_piecewise_encoding, src)
     rep.need('C02.R9', 2)
